@@ -124,7 +124,24 @@ fn run_seed_cases(cx: &mut Ctx, seeds: &[Seed], idx: &mut u64) -> bool {
         let mut rng = Rng::derive(cx.args.seed, 0x51, si as u64);
         if take < total {
             rng.shuffle(&mut all);
+            // the quick tier samples, but the extremes of EVERY field (0, max-1, max) are always
+            // substituted, whatever the seed: overflow sites must not depend on luck
+            let mut extremes: Vec<(usize, usize)> = Vec::new();
+            for (fi, f) in seed.fields.iter().enumerate() {
+                let vals = seed.values_for(f);
+                let w = (f.width * 8) as u32;
+                let max = if w >= 64 { u64::MAX } else { (1u64 << w) - 1 };
+                for (vi, v) in vals.iter().enumerate() {
+                    if *v == 0 || *v == max || *v == max - 1 {
+                        extremes.push((fi, vi));
+                    }
+                }
+            }
+            cx.rep.add("extreme_substitutions_always_run", extremes.len() as u64);
+            extremes.extend(all.iter().take(take).cloned());
+            all = extremes;
         }
+        let take = if thorough { total } else { all.len() };
         cx.rep.add("single_substitutions_possible", total as u64);
         for (fi, vi) in all.iter().take(take) {
             *idx += 1;
